@@ -230,6 +230,15 @@ abbrev DCList := List (Int × Bytes)
 /-- `SetDCList(in)`: bindings of `in` override / extend the existing ones -/
 def setDCList (old new : DCList) : DCList := new ++ old
 
+/-- the table of a client after a HISTORY of `SetDCList` calls (in call order) on a table that started as `init`
+(`NewMTProto` fills it with `defaultDCList()`): each call merges its argument into the table the client has -/
+def dclistAfter (init : DCList) (calls : List DCList) : DCList := calls.foldl setDCList init
+
+/-- what "configured for data centre `k`" means after such a history, said without the table: the LAST call that
+binds `k` decides; a data centre no call binds is what the initial table says (right-biased union) -/
+def configuredAfter (init : DCList) (calls : List DCList) (k : Int) : Option Bytes :=
+  (calls.reverse.findSome? (fun c => c.lookup k)).or (init.lookup k)
+
 /-- `tryToProcessErr` with the comma-ok repair: PHONE_MIGRATE_X without an `int` is returned -/
 def processErr (dcl : DCList) (message : Bytes) (p : Param) : Decision :=
   if message = phoneMigrateX then
